@@ -40,6 +40,7 @@ def load_spec(modules):
     env["implies"] = lambda a, b: (not a) or bool(b)
     env["forall"] = lambda lo, hi, f: all(f(i) for i in range(lo, hi))
     env["LEN"] = len
+    env["forall_int"] = lambda f: all(f(i) for i in list(range(-70, 70)) + [2**31 - 1, -2**31, 2**31, 2**63, -2**63])
 
     def same(a, b):
         if isinstance(a, float) and isinstance(b, float) and a != a and b != b:
